@@ -126,6 +126,10 @@ def resolve_tags(m, tags):
         if spec.get('ori') is not None:
             ori = np.array([int(spec['ori'][i % len(spec['ori'])]) % 2 for i in range(len(idx))], dtype=np.int32)
             ori[m.f2t[1, idx] == -1] = 0        # orientation 1 is only legal on interior facets
+            if spec.get('twosided'):
+                ii = m.f2t[1, idx] != -1
+                idx = np.concatenate([idx, idx[ii]]).astype(np.int32)
+                ori = np.concatenate([ori, 1 - ori[ii]]).astype(np.int32)
             bnd[name] = OrientedBoundary(idx, ori)
             res_b[name] = (idx, ori)
         else:
